@@ -1809,6 +1809,10 @@ func (kmc *KeystoreManagerForPoC) ChangePrivPassphrase(oldPrivPass, newPrivPass 
 		copy(addrManager.cryptoKeyPrivEncrypted, cPrivKeyEnc)
 		addrManager.masterKeyPriv.Zero()
 		addrManager.masterKeyPriv = newMasterPrivKey
+		if !addrManager.unlocked {
+			// locked: the freshly derived clear text master key must not stay in memory
+			addrManager.masterKeyPriv.Zero()
+		}
 		addrManager.privPassphraseSalt = passphraseSalt
 		addrManager.hashedPrivPassphrase = hashedPassphrase
 	}
